@@ -229,11 +229,29 @@ def _plain(x):
         return str(x)
 
 
+def big_stack(fn):
+    """Call fn() on a roomy interpreter data stack.
+
+    CPython (3.11, 3.12) keeps the frames of Python-to-Python calls in 16 KiB chunks and returns a chunk to the OS as soon as the
+    frame at its base is popped.  The partial evaluator recurses deeply and keeps crossing a chunk boundary, so plain runs spend
+    most of their time in mmap/munmap (measured: 8.5 s -> 0.7 s for the same work).  A trampoline whose frame asks for a little
+    more than a power of two of stack slots makes the interpreter allocate one large chunk; everything fn calls then lives in
+    the unused half of that chunk (virtual memory only, pages are touched on demand)."""
+    def trampoline():
+        return fn()
+
+    try:
+        trampoline.__code__ = trampoline.__code__.replace(co_stacksize=(1 << 23) + 1024)
+    except Exception:  # an interpreter that refuses the size: run plainly
+        return fn()
+    return trampoline()
+
+
 def _pmap_worker(payload):
     func, arg, tier, seed = payload
     rec = Recorder(tier, seed)
     try:
-        func(rec, arg)
+        big_stack(lambda: func(rec, arg))
         return rec.calls, None
     except Exception as e:  # re-raised in the parent as an analysis error
         return rec.calls, f"{type(e).__name__}: {e}"
